@@ -143,9 +143,12 @@ func applyConfig(sc *Scenario, jobDir string) error {
 	if c.UseHQ {
 		c.HQAddress = "http://10.99.0.1"
 		c.HQKey, c.HQSecret, c.HQProject = "k", "s", "simproject"
-		c.HQBatchConcurrency = 1
+		c.HQBatchConcurrency = max(1, x.HQBatchConcurrency)
 		if c.HQBatchSize == 0 {
 			c.HQBatchSize = c.WorkersCount
+		}
+		if c.HQBatchSize < c.HQBatchConcurrency {
+			c.HQBatchSize = c.HQBatchConcurrency // each sub-fetch asks for batch / concurrency rows
 		}
 	}
 	c.NoStdoutLogging, c.NoStderrLogging, c.NoFileLogging = true, true, true
